@@ -572,7 +572,7 @@ def shape_of(prog):
 DB_KINDS = ["normal", "normal", "empty", "nulls", "dups"]
 
 
-def explore_shard(prop, seed, shard, n_cases, profile, dialects=("sqlite", "generic"), props=None, reduce_budget=40):
+def explore_shard(prop, seed, shard, n_cases, profile, dialects=("sqlite", "generic"), props=None, reduce_budget=40, fixed=None):
     findings_cache = None
     """Generic exploration loop used by C01/C03/C04/C05.
     props: set of property ids whose symptoms this check owns."""
@@ -585,15 +585,25 @@ def explore_shard(prop, seed, shard, n_cases, profile, dialects=("sqlite", "gene
     reduced_cache = {}
     n_reduced = 0
     dbi = 0
-    while obs["cases"] < n_cases:
-        dbkind = DB_KINDS[dbi % len(DB_KINDS)]
-        dbi += 1
-        db = grel.gen_db(rng, dbkind)
+    # fixed: a list of (db, [programs]) enumerated by the caller (matrix phases) instead of random programs
+    fixed_iter = iter(fixed) if fixed is not None else None
+    while fixed_iter is not None or obs["cases"] < n_cases:
+        if fixed_iter is not None:
+            nxt = next(fixed_iter, None)
+            if nxt is None:
+                break
+            db, fixed_progs = nxt
+            dbkind = "fixed"
+        else:
+            dbkind = DB_KINDS[dbi % len(DB_KINDS)]
+            dbi += 1
+            db = grel.gen_db(rng, dbkind)
+            fixed_progs = [None] * 12
         w.db_close_all()
         w.db_open("d", grel.db_stmts(db))
-        for _ in range(12):
+        for fprog in fixed_progs:
             try:
-                prog = grel.random_program(rng, profile)
+                prog = fprog if fprog is not None else grel.random_program(rng, profile)
                 src = grel.pp_program(prog)
             except (ValueError, IndexError) as e:
                 obs["gen_error"] += 1
